@@ -24,7 +24,10 @@ where
         );
     }
     // There is two additional bytes that are not covered by the header size
-    let header = reader.read_bytes((header_size + 2) as usize)?;
+    let header_len = (header_size as usize)
+        .checked_add(2)
+        .ok_or(Error::UnexpectedEof)?;
+    let header = reader.read_bytes(header_len)?;
     let mut images = vec![];
 
     match blp_header.mipmap_locator {
